@@ -65,18 +65,51 @@ mod verif_kani {
         vk_cover!(parity == 0);
     }
 
-    // @HARNESS id=C08.rs.create_shards.slices_e1_hi tier=quick kind=Kb props=C08 bound="every buffer of 4..=6 symbolic bytes, E = 1, parity in 0..=2, k = ceil(len/E)" timeout=900
+    // (E = 1, len 4..=6 in one harness passed 14 GB after 3.5 minutes: one harness per length)
+    // @HARNESS id=C08.rs.create_shards.slices_e1_len4 tier=quick kind=Kb props=C08 bound="every buffer of 4 symbolic bytes, E = 1, parity in 0..=2, k = ceil(len/E)" timeout=900
     #[cfg(kani)]
     #[kani::proof]
     #[kani::unwind(9)]
     #[kani::stub(alloc::fmt::format, stub_format)]
     #[kani::stub(crate::tools::error::FluteError::new, stub_flute_error_new)]
-    fn create_shards_slices_e1_hi() {
-        h_create_shards_slices_e1_hi(kani::any(), kani::any());
+    fn create_shards_slices_e1_len4() {
+        h_create_shards_slices_e1_len4(kani::any(), kani::any());
     }
-    pub fn h_create_shards_slices_e1_hi(buf: [u8; MAXLEN], parity: usize) {
+    pub fn h_create_shards_slices_e1_len4(buf: [u8; MAXLEN], parity: usize) {
         vk_assume!(parity <= 2);
-        check_slices_range(buf, 4, 6, 1, parity);
+        check_slices_range(buf, 4, 4, 1, parity);
+        vk_cover!(buf[4 - 1] == 0xA5 && parity == 2);
+        vk_cover!(parity == 0);
+    }
+
+    // @HARNESS id=C08.rs.create_shards.slices_e1_len5 tier=quick kind=Kb props=C08 bound="every buffer of 5 symbolic bytes, E = 1, parity in 0..=2, k = ceil(len/E)" timeout=900
+    #[cfg(kani)]
+    #[kani::proof]
+    #[kani::unwind(9)]
+    #[kani::stub(alloc::fmt::format, stub_format)]
+    #[kani::stub(crate::tools::error::FluteError::new, stub_flute_error_new)]
+    fn create_shards_slices_e1_len5() {
+        h_create_shards_slices_e1_len5(kani::any(), kani::any());
+    }
+    pub fn h_create_shards_slices_e1_len5(buf: [u8; MAXLEN], parity: usize) {
+        vk_assume!(parity <= 2);
+        check_slices_range(buf, 5, 5, 1, parity);
+        vk_cover!(buf[5 - 1] == 0xA5 && parity == 2);
+        vk_cover!(parity == 0);
+    }
+
+    // @HARNESS id=C08.rs.create_shards.slices_e1_len6 tier=quick kind=Kb props=C08 bound="every buffer of 6 symbolic bytes, E = 1, parity in 0..=2, k = ceil(len/E)" timeout=900
+    #[cfg(kani)]
+    #[kani::proof]
+    #[kani::unwind(9)]
+    #[kani::stub(alloc::fmt::format, stub_format)]
+    #[kani::stub(crate::tools::error::FluteError::new, stub_flute_error_new)]
+    fn create_shards_slices_e1_len6() {
+        h_create_shards_slices_e1_len6(kani::any(), kani::any());
+    }
+    pub fn h_create_shards_slices_e1_len6(buf: [u8; MAXLEN], parity: usize) {
+        vk_assume!(parity <= 2);
+        check_slices_range(buf, 6, 6, 1, parity);
         vk_cover!(buf[6 - 1] == 0xA5 && parity == 2);
         vk_cover!(parity == 0);
     }
